@@ -80,10 +80,17 @@ package nsqd
 //@ ghost kConsUnpaused int
 //@ ghost kLastCons Consumer
 //@ ghost kLastClosed Consumer
-//@ ghostgroup kConsClosed, kLastClosed
+//@ ghostgroup kConsClosed, kLastClosed, r3aClosedSet
 // kEmptiedSet: the consumers whose Empty() has been called so far (grows only).
 //@ ghost kEmptiedSet set[Consumer]
 //@ ghostgroup kConsEmptied, kEmptiedSet
+// (round 3, area A) r3aClosedSet / r3aPausedSet / r3aUnpausedSet: the consumers whose Close() / Pause() / UnPause()
+// has been called so far (grow only); they make "EVERY subscriber was closed / told" provable.
+//@ ghost r3aClosedSet set[Consumer]
+//@ ghost r3aPausedSet set[Consumer]
+//@ ghost r3aUnpausedSet set[Consumer]
+//@ ghostgroup kConsPaused, r3aPausedSet
+//@ ghostgroup kConsUnpaused, r3aUnpausedSet
 //@ extern (github.com/nsqio/nsq/nsqd.Consumer).TimedOutMessage(cl)
 //@   modifies clientV2.InFlightCount, kConsTimedOut, kLastCons
 //@   onreturn kConsTimedOut := kConsTimedOut + 1
@@ -97,14 +104,17 @@ package nsqd
 //@   modifies kConsClosed, kLastClosed
 //@   onreturn kConsClosed := kConsClosed + 1
 //@   onreturn kLastClosed := cl
+//@   onreturn r3aClosedSet := setadd(r3aClosedSet, cl)
 //@ extern (github.com/nsqio/nsq/nsqd.Consumer).Pause(cl)
 //@   modifies kConsPaused, kLastCons
 //@   onreturn kConsPaused := kConsPaused + 1
 //@   onreturn kLastCons := cl
+//@   onreturn r3aPausedSet := setadd(r3aPausedSet, cl)
 //@ extern (github.com/nsqio/nsq/nsqd.Consumer).UnPause(cl)
 //@   modifies kConsUnpaused, kLastCons
 //@   onreturn kConsUnpaused := kConsUnpaused + 1
 //@   onreturn kLastCons := cl
+//@   onreturn r3aUnpausedSet := setadd(r3aUnpausedSet, cl)
 
 // The deferred map pop: exactly one caller obtains a given deferred item; a refused call changes nothing.
 //@ func (c *Channel) popDeferredMessage(id MessageID) (*pqueue.Item, error)
@@ -262,14 +272,22 @@ package nsqd
 // kFlushes counts the Channel.flush calls (kTopicFlushes: Topic.flush), kFlushChan is the channel of the last one.
 //@ ghost kFlushes int
 //@ ghost kFlushChan *Channel
-//@ ghostgroup kFlushes, kFlushChan
+// (round 3, area A) r3aChanClosedSet: the channels whose Close() has been called so far (grows only). It is in the group of
+// kFlushes - the ghost every frame above Channel.Close already names - so no caller's frame changes.
+//@ ghost r3aChanClosedSet set[*Channel]
+//@ ghostgroup kFlushes, kFlushChan, r3aChanClosedSet
 //@ ghost kTopicFlushes int
 //@ ghost kFlushTopic *Topic
-//@ ghostgroup kTopicFlushes, kFlushTopic
+// (round 3, area A) r3aTopicClosedSet: the topics whose Close() has been called so far (grows only; in the group of
+// kTopicFlushes, which every frame above Topic.Close already names).
+//@ ghost r3aTopicClosedSet set[*Topic]
+//@ ghostgroup kTopicFlushes, kFlushTopic, r3aTopicClosedSet
 
 // NSQD.Notify hands the topic/channel to the lookup loop and persists the metadata - asynchronously, in a
-// goroutine of its own (waitGroup.Wrap). ASSUMED (trusted, body not verified): the call itself changes no
-// modelled state; it is recorded in ghosts.
+// goroutine of its own (waitGroup.Wrap). (round 3, area A) no longer trusted - the body is verified: the call itself changes
+// no modelled state (frame) and neither sends nor receives on any channel (`nochan`: the hand-over to notifyChan must not
+// block the caller, which may hold the topic / NSQD lock); it is recorded in ghosts. The goroutine body Notify$1 is under
+// contract in zz_contracts_gmeta_verif.go; WaitGroupWrapper.Wrap is `benign` there (it only starts the goroutine).
 //@ ghost kNotifies int
 //@ ghost kNotifyNSQD *NSQD
 //@ ghost kNotifyValue interface{}
@@ -277,7 +295,7 @@ package nsqd
 //@ ghostgroup kNotifies, kNotifyNSQD, kNotifyValue, kNotifyPersist
 //@ func (n *NSQD) Notify(v interface{}, persist bool)
 //@   props C08
-//@   trusted
+//@   nochan
 //@   requires n != nil
 //@   modifies kNotifies
 //@   onreturn kNotifies := kNotifies + 1
@@ -299,6 +317,9 @@ package nsqd
 //@   ensures[delete-announced] old(c.exitFlag) == 0 && deleted ==> kNotifies == old(kNotifies) + 1 && kNotifyNSQD == c.nsqd && dyntype(kNotifyValue) == typetag("*Channel") && unbox(kNotifyValue, "*Channel") == c && kNotifyPersist == !c.ephemeral
 //@   ensures[close-not-announced] old(c.exitFlag) == 0 && !deleted ==> kNotifies == old(kNotifies)
 //@   ensures[closed-are-subscribers] kConsClosed > old(kConsClosed) ==> atunlock(kIsSubscriber(c, now(kLastClosed)))
+//   (round 3) completeness, both on the delete and on the close path: EVERY connection subscribed while the channel lock is
+//   held has been closed ("deleting a channel disconnects its consumers"; "channel close: disconnect consumers")
+//@   ensures[every-subscriber-closed] old(c.exitFlag) == 0 ==> (forall id int64 :: {atunlock(c.clients[id])} atunlock(has(c.clients, id)) ==> setin(r3aClosedSet, atunlock(c.clients[id])))
 //@   ensures[delete-discards-then-removes-files] old(c.exitFlag) == 0 && deleted ==> kInitPQs == old(kInitPQs) + 1 && kInitPQChan == c && kBqEmpties == old(kBqEmpties) + 1 && kBqEmptyQueue == c.backend &&
 //@        kBqDeletes == old(kBqDeletes) + 1 && kBqDeleteQueue == c.backend && kBqDeleteSawEmpties == kBqEmpties && result == kBqDeleteErr
 //@   ensures[delete-persists-nothing] old(c.exitFlag) == 0 && deleted ==> kBqCloses == old(kBqCloses) && kFlushes == old(kFlushes) && backendWrites == old(backendWrites)
@@ -312,18 +333,23 @@ package nsqd
 //@     invariant[first] old(c.exitFlag) == 0 && c.exitFlag == 1
 //@     invariant[announced] kNotifies == old(kNotifies) + (deleted ? 1 : 0) && (deleted ==> kNotifyNSQD == c.nsqd && dyntype(kNotifyValue) == typetag("*Channel") && unbox(kNotifyValue, "*Channel") == c && kNotifyPersist == !c.ephemeral)
 //@     invariant[closed-are-subscribers] kConsClosed >= old(kConsClosed) && (kConsClosed > old(kConsClosed) ==> kIsSubscriber(c, kLastClosed))
+//@     invariant[subscriptions-kept] c.clients == atlock(c.clients) && len(c.clients) == atlock(len(c.clients)) && (forall id int64 :: {c.clients[id]} (has(c.clients, id) <==> atlock(has(c.clients, id))) && c.clients[id] == atlock(c.clients[id]))
+//@     invariant[visited-closed] forall id int64 :: {c.clients[id]} visited(id) ==> setin(r3aClosedSet, c.clients[id])
 //@     invariant[nothing-else-yet] kInitPQs == old(kInitPQs) && kBqEmpties == old(kBqEmpties) && kBqDeletes == old(kBqDeletes) && kBqCloses == old(kBqCloses) && kFlushes == old(kFlushes) && backendWrites == old(backendWrites) && kConsEmptied == old(kConsEmptied)
 //@     invariant[counters] c.messageCount == old(c.messageCount) && c.requeueCount == old(c.requeueCount) && c.timeoutCount == old(c.timeoutCount)
 
 // kChanDeletes counts the Channel.Delete calls, kDeletedChan is the channel of the most recent one.
 //@ ghost kChanDeletes int
 //@ ghost kDeletedChan *Channel
-//@ ghostgroup kChanDeletes, kDeletedChan
+// (round 3, area A) r3aChanDeletedSet: the channels whose Delete() has been called so far (grows only).
+//@ ghost r3aChanDeletedSet set[*Channel]
+//@ ghostgroup kChanDeletes, kDeletedChan, r3aChanDeletedSet
 //@ func (c *Channel) Delete() error
 //@   props C08
 //@   requires flowChan(c)
 //@   onreturn kChanDeletes := kChanDeletes + 1
 //@   onreturn kDeletedChan := c
+//@   onreturn r3aChanDeletedSet := setadd(r3aChanDeletedSet, c)
 //@   ensures[second-call-refused] old(c.exitFlag) != 0 ==> result != nil && c.exitFlag == old(c.exitFlag) && kBqDeletes == old(kBqDeletes) && kBqEmpties == old(kBqEmpties) && kNotifies == old(kNotifies)
 //@   ensures[deleted] old(c.exitFlag) == 0 ==> c.exitFlag == 1 && kNotifies == old(kNotifies) + 1 && kNotifyPersist == !c.ephemeral && kInitPQs == old(kInitPQs) + 1 && kBqEmpties == old(kBqEmpties) + 1 && kBqDeletes == old(kBqDeletes) + 1 && kBqDeleteQueue == c.backend && result == kBqDeleteErr
 //@   ensures[persists-nothing] kBqCloses == old(kBqCloses) && kFlushes == old(kFlushes) && backendWrites == old(backendWrites)
@@ -334,6 +360,7 @@ package nsqd
 //@ func (c *Channel) Close() error
 //@   props C08 C05
 //@   requires flowChan(c)
+//@   onreturn r3aChanClosedSet := setadd(r3aChanClosedSet, c)
 //@   ensures[second-call-refused] old(c.exitFlag) != 0 ==> result != nil && c.exitFlag == old(c.exitFlag) && kBqCloses == old(kBqCloses) && kFlushes == old(kFlushes)
 //@   ensures[closed] old(c.exitFlag) == 0 ==> c.exitFlag == 1 && kFlushes == old(kFlushes) + 1 && kFlushChan == c && kBqCloses == old(kBqCloses) + 1 && kBqCloseQueue == c.backend && result == kBqCloseErr
 //@   ensures[discards-nothing] kInitPQs == old(kInitPQs) && kBqEmpties == old(kBqEmpties) && kBqDeletes == old(kBqDeletes) && kNotifies == old(kNotifies)
@@ -383,6 +410,10 @@ package nsqd
 //@   ensures[len] c.exitFlag != 1 ==> atunlock(len(c.clients)) == atlock(len(c.clients)) - (atlock(has(c.clients, clientID)) ? 1 : 0)
 //@   ensures[deletion-only-if-ephemeral-and-last] onceSpawns != old(onceSpawns) ==> c.ephemeral && onceSpawns == old(onceSpawns) + 1 && onceSpawned == &c.deleter
 //@   ensures[durable-channel-stays] !c.ephemeral ==> onceSpawns == old(onceSpawns)
+//   "once its LAST consumer leaves": decided on the number of subscribers left when the write lock that removed this one is
+//   released - not on a count taken in an earlier critical section (two consumers leaving together would both miss it)
+//@   ensures[deletion-only-if-none-left-at-removal] onceSpawns != old(onceSpawns) ==> atunlock(len(c.clients)) == 0
+//@   ensures[last-one-out-starts-deletion] c.exitFlag != 1 && c.ephemeral && atlock(has(c.clients, clientID)) && atunlock(len(c.clients)) == 0 ==> onceSpawns == old(onceSpawns) + 1
 //@   modifies c.clients, mapstore(map[int64]Consumer), onceSpawns, lRemoveCalls
 //@   onreturn lRemoveCalls := lRemoveCalls + 1
 //@   onreturn lRemoveChan := c
@@ -397,6 +428,9 @@ package nsqd
 //@   ensures[matching-call-only] (pause ==> kConsUnpaused == old(kConsUnpaused)) && (!pause ==> kConsPaused == old(kConsPaused))
 //@   ensures[told-are-subscribers] kConsPaused + kConsUnpaused > old(kConsPaused) + old(kConsUnpaused) ==> atunlock(kIsSubscriber(c, now(kLastCons)))
 //@   ensures[subscriptions-kept] atunlock(c.clients) == atlock(c.clients) && atunlock(len(c.clients)) == atlock(len(c.clients))
+//   (round 3) completeness: EVERY connection subscribed while the channel lock is held has been told - with the matching call
+//@   ensures[every-subscriber-told-pause] pause ==> (forall id int64 :: {atunlock(c.clients[id])} atunlock(has(c.clients, id)) ==> setin(r3aPausedSet, atunlock(c.clients[id])))
+//@   ensures[every-subscriber-told-unpause] !pause ==> (forall id int64 :: {atunlock(c.clients[id])} atunlock(has(c.clients, id)) ==> setin(r3aUnpausedSet, atunlock(c.clients[id])))
 //@   modifies c.paused, c.clients, mapstore(map[int64]Consumer), kConsPaused, kConsUnpaused, kLastCons, gChanPauseCalls
 //   the most recent Channel.doPause call (ghosts declared in zz_contracts_gmeta_verif.go, one ghostgroup)
 //@   onreturn gChanPauseCalls := gChanPauseCalls + 1
@@ -406,6 +440,7 @@ package nsqd
 //@     invariant[flag] c.paused == (pause ? 1 : 0)
 //@     invariant[matching-call-only] kConsPaused >= old(kConsPaused) && kConsUnpaused >= old(kConsUnpaused) && (pause ==> kConsUnpaused == old(kConsUnpaused)) && (!pause ==> kConsPaused == old(kConsPaused))
 //@     invariant[told-are-subscribers] kConsPaused + kConsUnpaused > old(kConsPaused) + old(kConsUnpaused) ==> kIsSubscriber(c, kLastCons)
+//@     invariant[visited-told] forall id int64 :: {c.clients[id]} visited(id) ==> setin((pause ? r3aPausedSet : r3aUnpausedSet), c.clients[id])
 //@     invariant[subscriptions-kept] c.clients == atlock(c.clients) && len(c.clients) == atlock(len(c.clients)) && (forall id int64 :: {c.clients[id]} (has(c.clients, id) <==> atlock(has(c.clients, id))) && c.clients[id] == atlock(c.clients[id]))
 
 //@ func (c *Channel) Pause() error
